@@ -28,6 +28,7 @@ QUICK = [('Controls_q1.cfg', ('AddParam', 'Emit')),
 THOROUGH = QUICK + [('Controls_t2.cfg', ('AddParam', 'Emit')),
                     ('Controls_t2b.cfg', ('AddParam', 'Emit')),
                     ('Controls_t3.cfg', ('AddParam', 'Emit')),
+                    ('Controls_t3b.cfg', ('AddParam', 'Emit')),
                     ('Controls_t3w.cfg', ('AddParam', 'AddBound', 'OpenWrap', 'Emit')),
                     ('Controls_t4.cfg', ('AddParam', 'AddBound', 'OpenWrap', 'AddVariant', 'Emit'))]
 
@@ -244,7 +245,7 @@ def run(ctx):
             per_slice[cfg] = len(ds)
             defs += ds
     # 3. long requests from TLC's simulator (up to 40 parameters, 4 functions, tuples of 17 and 33)
-    nsim = 400 if thorough else 60
+    nsim = 800 if thorough else 60
     r = tlc.run('Controls', 'Controls_sim.cfg', ctx.work, workers=1 if ctx.quick else 4, timeout=900,
                 simulate='num=%d' % nsim,
                 depth=46, seed=ctx.seed + 1)
